@@ -202,7 +202,10 @@ __attribute__((no_sanitize("thread"))) int sk_sig_add(uint64_t sig)
 	if ((sigcnt + 1) * 2 > sigcap)
 	{
 		size_t ncap = sigcap ? sigcap * 2 : 4096, j;
-		uint64_t* nt = (uint64_t*)calloc(ncap, 8);
+		int was_armed = sk_heap_armed();
+		uint64_t* nt;
+		sk_heap_disarm(); /* the table must not come from the per-run arena */
+		nt = (uint64_t*)calloc(ncap, 8);
 		for (j = 0; j < sigcap; ++j)
 			if (sigtab[j])
 			{
@@ -213,6 +216,8 @@ __attribute__((no_sanitize("thread"))) int sk_sig_add(uint64_t sig)
 			}
 		free(sigtab);
 		sigtab = nt, sigcap = ncap;
+		if (was_armed)
+			sk_heap_arm();
 	}
 	i = (size_t)(sk_mix(sig, 7) & (sigcap - 1));
 	while (sigtab[i])
